@@ -30,12 +30,12 @@
    Primitives (block ciphers, compressor, KDF) are universally quantified with the laws the C01 theorems need.
    delete is bridged for archives without solid blocks (theorems C11_delete_container_entries / _logical / _abs).  Not covered here: update at byte
    level (it rewrites the archive through run_transform_entry and create_entry: C10 / C14 / C01 areas), delete with
-   solid blocks (expand / rebuild are parameters of run_edit), and wf_archive of an appended file (the delete
-   theorems need it; C14's writer theorems give it for written archives). *)
+   solid blocks (expand / rebuild are parameters of run_edit).  wf_archive of an appended file (a premise of the delete
+   theorems) is shown for written archives (C11_append_written_stays_wf), not for every accepted file. *)
 From PNA Require Import Base Crc32 Name Codec Chunk Archive Entry Flatten Cbc Ctr Pipeline Aes Camellia
   BaseFacts ChunkFacts ArchiveFacts EntryFacts OffsetFacts PartsFacts CbcFacts PipelineFacts AesFacts CamelliaFacts.
 From PNA Require Import Fs Extract CreateTransportFacts AppendContainerFacts.
-From PNA Require Update UpdateFacts ArchiveRun Wf RecutFacts WfTransformFacts Transform.
+From PNA Require Update UpdateFacts ArchiveRun Wf WfWriterFacts RecutFacts WfTransformFacts Transform.
 Open Scope N_scope.
 
 (* the operation of these theorems is the append the `append` cases run against the library *)
@@ -458,6 +458,28 @@ Check C11_append_multipart_logical :
     logical_parts E D decompress verify pw rb srb out = Ok (Update.append (map abs old) (map abs new)) /\
     read_parts_b out = Ok (es ++ new_raws E compress jobs, FinOk, []).
 Print Assumptions C11_append_multipart_logical.
+
+(* archives written from writable entries (WfWriterFacts.writable = exactly what the strict recogniser of C14 accepts;
+   WfPipelineFacts.build_normal_writable: every entry the pipeline builds): the append gives byte for byte the archive
+   the writer produces for the extended entry list, and it is accepted again.  The form `write_raw_archive 0 (map
+   ser_entry xs)` is also the form of what delete writes, so the premises of the delete theorems below hold along a
+   history of appends and deletes *)
+Theorem C11_append_written_stays_wf :
+  forall es new : list read_entry,
+  Forall WfWriterFacts.writable es -> Forall WfWriterFacts.writable new ->
+  append_at (write_raw_archive 0 (map ser_entry es)) (map ser_entry new)
+    = Ok (write_raw_archive 0 (map ser_entry (es ++ new)), false) /\
+  Wf.wf_archive (write_raw_archive 0 (map ser_entry (es ++ new))) = true /\
+  read_archive (write_raw_archive 0 (map ser_entry (es ++ new))) = Ok (map normalize_entry (es ++ new)).
+Proof. exact append_written_wf. Qed.
+Check C11_append_written_stays_wf :
+  forall es new : list read_entry,
+  Forall WfWriterFacts.writable es -> Forall WfWriterFacts.writable new ->
+  append_at (write_raw_archive 0 (map ser_entry es)) (map ser_entry new)
+    = Ok (write_raw_archive 0 (map ser_entry (es ++ new)), false) /\
+  Wf.wf_archive (write_raw_archive 0 (map ser_entry (es ++ new))) = true /\
+  read_archive (write_raw_archive 0 (map ser_entry (es ++ new))) = Ok (map normalize_entry (es ++ new)).
+Print Assumptions C11_append_written_stays_wf.
 
 (* delete (WfTransformFacts.run_edit ... CDelete = run_transform_entry with the delete transformer, C10 / C14) on the
    bytes of an archive the strict recogniser accepts and that holds no solid block: the archive written holds exactly
